@@ -30,8 +30,11 @@ PkgSet == {"leaf", "mid", "main"}
 DepOf(p) == CASE p = "leaf" -> "none" [] p = "mid" -> "leaf" [] p = "main" -> "mid"
 
 CfgFields == {"tiny", "lit", "seed", "gogarble", "ctrl", "tags", "xname", "xval"}
-(* inputs of the compile action that cmd/go itself hashes *)
+(* inputs of the compile action that cmd/go itself hashes.  Build tags enter an action  *)
+(* ID only through the set of files they select: in the fixture module only package    *)
+(* main has a tag-dependent file, so only main's action ID moves with -tags.           *)
 GoCompileFields == {"tags"}
+GoFieldsOf(p) == IF p = "main" THEN GoCompileFields ELSE {}
 (* what garble's transformation of package p reads *)
 ObfFieldsOf(p, cfg) == {"tiny", "lit", "seed", "gogarble", "ctrl"}
                          \cup (IF cfg.lit /\ p = "main" THEN {"xname"} ELSE {})
@@ -40,7 +43,7 @@ KeyFieldsOf(cfg) == KeyFields \cup (IF cfg.lit /\ XNameKeyed THEN {"xname"} ELSE
 Proj(cfg, F) == [f \in F |-> cfg[f]]
 
 (* design-level statement of C06: every input of the transformation is keyed *)
-KeyCovers == \A cfg \in Cfgs : \A p \in PkgSet : ObfFieldsOf(p, cfg) \subseteq KeyFieldsOf(cfg) \cup GoCompileFields
+KeyCovers == \A cfg \in Cfgs : \A p \in PkgSet : ObfFieldsOf(p, cfg) \subseteq KeyFieldsOf(cfg) \cup GoFieldsOf(p)
 
 VARIABLES
   src,      \* [PkgSet -> Nat] source version of each package
@@ -60,8 +63,8 @@ OwnFacts(p, s) == {<<p, s[p]>>}
 RECURSIVE Deep(_, _)
 Deep(p, s) == OwnFacts(p, s) \cup (IF DepOf(p) = "none" THEN {} ELSE Deep(DepOf(p), s))
 
-Aid(p, cfg, s, depOut) == [p |-> p, s |-> s[p], go |-> Proj(cfg, GoCompileFields), tool |-> Proj(cfg, KeyFieldsOf(cfg)), deps |-> depOut]
-Out(p, cfg, s, depOut, facts) == [p |-> p, s |-> s[p], obf |-> Proj(cfg, ObfFieldsOf(p, cfg)), go |-> Proj(cfg, GoCompileFields),
+Aid(p, cfg, s, depOut) == [p |-> p, s |-> s[p], go |-> Proj(cfg, GoFieldsOf(p)), tool |-> Proj(cfg, KeyFieldsOf(cfg)), deps |-> depOut]
+Out(p, cfg, s, depOut, facts) == [p |-> p, s |-> s[p], obf |-> Proj(cfg, ObfFieldsOf(p, cfg)), go |-> Proj(cfg, GoFieldsOf(p)),
                                   deps |-> depOut, facts |-> facts]
 
 Hit(gc, k) == \E e \in gc : e.key = k /\ e.st = "ok"
